@@ -43,6 +43,11 @@ class HBag:
 
 
 def _make(models, it, reg, ty, name, fresh):
+    if ty.startswith("AnyDictOf["):
+        # an opaque dict whose *values* have a known type (a cache of records, a dict of dicts): reads yield an arbitrary
+        # value of that type, writes are dropped
+        srt = it.ctx.sort("AnyDict")
+        return SOpaque("AnyDict", it.run.fresh(srt, name) if fresh else z3.Const(name, srt), {"item": ty[10:-1]})
     if ty in ANY:
         srt = it.ctx.sort(ty)
         return SOpaque(ty, it.run.fresh(srt, name) if fresh else z3.Const(name, srt))
@@ -62,9 +67,11 @@ def _note(models, it):
 
 
 def _dict_hook(models, it, v, node):
-    if isinstance(v, SOpaque) and v.sort == "AnyDict":
+    if isinstance(v, SOpaque) and v.sort in ("AnyDict", "AnyItems"):
         _note(models, it)
-        return mk(it, "AnyDict", "dictcopy")
+        r = mk(it, "AnyDict", "dictcopy")
+        r.meta.update({k: x for k, x in v.meta.items() if k == "item"})
+        return r
     return NotImplemented
 
 
@@ -107,6 +114,10 @@ def _method(models, it, target, obj, name, args, kwargs, fr, node):
             return mk(it, "AnyVals", "values")
         if name == "keys":
             return mk(it, "AnyKeys", "keys")
+        if name == "items":
+            r = mk(it, "AnyItems", "items")
+            r.meta.update({k: x for k, x in target.meta.items() if k == "item"})
+            return r
     if isinstance(target, SOpaque) and target.sort == "AnyList" and name in ("extend", "append"):
         _note(models, it)
         return None
@@ -168,6 +179,8 @@ Models.contains_hook = _contains_hook
 
 def _getitem(models, it, base, idx, node):
     if isinstance(base, SOpaque) and base.sort == "AnyDict":
+        if base.meta.get("item"):
+            return it.ctx.reg.make_symbolic(it, base.meta["item"], "anyitem")
         return it.run.fresh("Real", "anyitem")
     return NotImplemented
 
@@ -287,6 +300,13 @@ def _install():
         orig(self)
         prev = self.ext.get("builtins.set")
         self.ext["builtins.set"] = lambda s, it, args, kw, fr, node: b_set(s, it, args, kw, fr, node, prev)
+        prev_sorted = self.ext.get("builtins.sorted")
+
+        def b_sorted(s, it, args, kw, fr, node):
+            if args and isinstance(args[0], SOpaque) and args[0].sort == "AnyItems":
+                return args[0]          # the (key, value) pairs of an opaque dict in another order: still those pairs
+            return prev_sorted(s, it, args, kw, fr, node)
+        self.ext["builtins.sorted"] = b_sorted
     Models.__init__ = new_init
 
 
